@@ -245,12 +245,15 @@ structure PSt.WF (p : PSt) : Prop where
   idsNodup : ∀ st f kv l, kv ∈ p.setx st f → kv.2 = .ids l → l.Nodup
 
 /-- `GetEntityBucket` of the layered database = the entity of the view -/
-theorem entityBucket_eq_view (L : Layering) (p : PSt) (hwf : p.WF) (st : Name) (id : Id) :
+theorem entityBucket_eq_view_k (L : Layering) (p : PSt) (hk : ∀ r, NodupKeys (p.ents r)) (st : Name) (id : Id) :
     p.entityBucket L st id = (p.view L).ent st id := by
   unfold PSt.entityBucket St.ent PSt.view
   cases hd : L.decl st with
   | none => simp only [hd]; rw [get_map_snd]
-  | some d => simp only [hd]; exact (get_filterMap (fun pe => pe.child st) id _ (hwf.ents _)).symm
+  | some d => simp only [hd]; exact (get_filterMap (fun pe => pe.child st) id _ (hk _)).symm
+
+theorem entityBucket_eq_view (L : Layering) (p : PSt) (hwf : p.WF) (st : Name) (id : Id) :
+    p.entityBucket L st id = (p.view L).ent st id := entityBucket_eq_view_k L p hwf.ents st id
 
 /-- `IsEntityPresent` -/
 theorem isEntityPresent_eq_view (L : Layering) (p : PSt) (hwf : p.WF) (st : Name) (id : Id) :
@@ -306,7 +309,7 @@ theorem filter_present_eq {A B : Type} (g : A → Option B) (l : List (Bytes × 
     in order: for a root store all of them; for a plain child store the filtered cursor drops the
     parent-only ids; for an extended child store the filtered cursor keeps them and `ValidIdsCursors`
     — initial positioning and `Next` — drops them, wherever they sit. -/
-theorem validIds_eq_view (L : Layering) (p : PSt) (hwf : p.WF) (st : Name) :
+theorem validIds_eq_view_k (L : Layering) (p : PSt) (hk : ∀ r, NodupKeys (p.ents r)) (st : Name) :
     p.validIds L st = (p.view L).ids st := by
   unfold PSt.validIds PSt.iterateIds
   cases hd : L.decl st with
@@ -325,7 +328,7 @@ theorem validIds_eq_view (L : Layering) (p : PSt) (hwf : p.WF) (st : Name) :
         ((p.ents d.parent).map (·.1)).filter (fun id => p.isEntityPresent L st id) := by
       unfold St.ids PSt.view PSt.isEntityPresent PSt.entityBucket
       simp only [hd]
-      exact (filter_present_eq (fun pe => pe.child st) _ (hwf.ents _)).symm
+      exact (filter_present_eq (fun pe => pe.child st) _ (hk _)).symm
     have hb : (p.bucket L st).map (·.1) = (p.ents d.parent).map (·.1) := by unfold PSt.bucket; rw [hd]
     rw [hview, hb, hc, he]
     cases hext : d.extended with
@@ -348,6 +351,9 @@ theorem validIds_eq_view (L : Layering) (p : PSt) (hwf : p.WF) (st : Name) :
         | true =>
           simp only [Bool.not_true, Bool.false_eq_true, if_false]
           rw [drain_valid _ _ _ (Nat.le_succ _) (Or.inr ⟨x, t, rfl, hx⟩)]
+
+theorem validIds_eq_view (L : Layering) (p : PSt) (hwf : p.WF) (st : Name) :
+    p.validIds L st = (p.view L).ids st := validIds_eq_view_k L p hwf.ents st
 
 /-- the view of a well-formed layered database is a well-formed state -/
 theorem view_wf (L : Layering) (p : PSt) (hwf : p.WF) : (p.view L).WF := by
